@@ -305,3 +305,78 @@ func init() {
 		Rule:   "one state per completed symbolic path: directive kinds are symbolic ints, $if operands and the parser's mode/term/app are names with a symbolic letter, so which conditions hold is decided by the solver; assertions compare the real Config with the reference evaluator",
 	}
 }
+
+func init() {
+	checks["C08"] = &CheckDef{
+		ID: "C08",
+		Jobs: func(tier string, p *Program) []*Job {
+			var jobs []*Job
+			lns := []int{0, 1, 2}
+			ks := []int{0, 1, 2}
+			el := 1
+			if tier == "thorough" {
+				lns = []int{0, 1, 2, 3}
+				ks = []int{0, 1, 2, 3}
+			}
+			for _, variant := range []string{"accept", "hold", "infer", "error"} {
+				for _, size := range []string{"unset", "sym"} {
+					for _, ln := range lns {
+						for _, k0 := range ks {
+							j := mkJob("/internal/history.ZZ_C08_Accept", "", "ns", "1", "k0", itoa(k0), "ln", itoa(ln), "el", itoa(el), "variant", variant, "size", size)
+							j.Reach = []string{"accepted"}
+							jobs = append(jobs, j)
+							if ln > 0 && k0 <= 2 {
+								for _, k1 := range []int{0, 1} {
+									j := mkJob("/internal/history.ZZ_C08_Accept", "", "ns", "2", "k0", itoa(k0), "k1", itoa(k1), "ln", itoa(ln), "el", itoa(el), "variant", variant, "size", size)
+									j.MapOrders = true
+									j.Reach = []string{"accepted"}
+									jobs = append(jobs, j)
+								}
+							}
+						}
+					}
+				}
+			}
+			return jobs
+		},
+		Assumptions: []string{
+			"sources are in-memory histories (the library's own type) pre-filled with symbolic entries; accept variants call Sources.Accept(hold, infer, err) exactly as accept-line / accept-and-hold / operate-and-get-next / interrupt do",
+			"history-size is unset or a symbolic N in [1,4] (explicit 0 and negative values are ambiguous in the statement and are not compared)",
+			"text over Latin-1 plus caseless scalar values; map iteration over the bound sources is explored in every order",
+		},
+		Stubs:  []string{"none beyond strings/unicode models"},
+		Bounds: map[string]string{"quick": "line <= 2 runes, <= 2 prior entries of 1 rune per source, 1-2 sources", "thorough": "line <= 3 runes, <= 3 prior entries"},
+		Rule:   "one state per completed symbolic path of Sources.Accept/Write",
+	}
+}
+
+func init() {
+	checks["C09"] = &CheckDef{
+		ID: "C09",
+		Jobs: func(tier string, p *Program) []*Job {
+			var jobs []*Job
+			type cfg struct{ h, el, tl, w int }
+			cfgs := []cfg{{0, 1, 1, 2}, {1, 1, 1, 2}, {2, 1, 1, 2}, {2, 1, 0, 2}, {2, 1, 1, 3}}
+			if tier == "thorough" {
+				cfgs = append(cfgs, cfg{3, 1, 1, 3}, cfg{2, 2, 1, 3}, cfg{2, 1, 2, 3}, cfg{3, 1, 1, 4}, cfg{1, 2, 2, 4})
+			}
+			for _, c := range cfgs {
+				for _, set := range []string{"nav", "search", "mixed"} {
+					j := mkJob(".ZZ_C09_Nav", shellSetup, "h", itoa(c.h), "el", itoa(c.el), "tl", itoa(c.tl), "w", itoa(c.w), "set", set)
+					j.Stubs = paintStubs
+					j.Reach = []string{"all-steps"}
+					jobs = append(jobs, j)
+				}
+			}
+			return jobs
+		},
+		Assumptions: append([]string{
+			"history = one in-memory source (the library's type) with h symbolic entries of printable ASCII; in-progress text T of printable ASCII, cursor at its end",
+			"command sequences are symbolic choices over {previous/next/beginning/end-of-history} and {history-search-backward/forward, history-substring-search-backward/forward}, typed one key per read through probe bindings",
+			"end-of-history may land on the in-progress text or on the newest entry (code comment and GNU manual differ; both accepted)",
+		}, stepAssumptions[1:]...),
+		Stubs:  []string{"regexp.Compile(regexp.QuoteMeta(x)) on symbolic x = literal substring search"},
+		Bounds: map[string]string{"quick": "h <= 2 entries of 1 char, T <= 1 char, w <= 3 commands", "thorough": "h <= 3, entries/T <= 2 chars, w <= 4"},
+		Rule:   "one state per completed symbolic path",
+	}
+}
